@@ -127,6 +127,7 @@ func (X *Exec) applyCallsites(fr *Frame, st *State, cc *ssa.CallCommon, how stri
 		return
 	}
 	recv, args := X.argVals(fr, cc)
+	lvars := X.loopVarsAt(fr, st, X.curIns)
 	for _, cs := range css {
 		cs.Hits++
 		vars := map[string]*Val{}
@@ -143,6 +144,9 @@ func (X *Exec) applyCallsites(fr *Frame, st *State, cc *ssa.CallCommon, how stri
 			vars[fmt.Sprintf("arg%d", k)] = a
 		}
 		vars["viago"] = &Val{T: X.E.TS.Bool(how == "go"), GT: types.Typ[types.Bool]}
+		for k, v := range lvars {
+			vars[k] = v // rangeindex / rangelen of the innermost loop around the call
+		}
 		if !cc.IsInvoke() && cc.StaticCallee() == nil {
 			if _, isB := cc.Value.(*ssa.Builtin); !isB {
 				vars["callee"] = X.val(fr, cc.Value) // the function value of a dynamic call
@@ -255,7 +259,9 @@ func (X *Exec) evalClauseTop(st *State, c *Clause) *Term {
 // ---------------------------------------------------------------------------
 
 func (X *Exec) execGo(fr *Frame, i *ssa.Go, st *State) {
+	X.curIns = i
 	X.applyCallsites(fr, st, &i.Call, "go", i.Pos())
+	X.curIns = nil
 	names := X.calleeNames(&i.Call)
 	if len(names) > 0 {
 		X.Spawns = append(X.Spawns, X.E.P.Keys[fr.Fn]+" spawns "+names[0])
@@ -396,7 +402,9 @@ func (X *Exec) execCallWith(fr *Frame, ins ssa.Instruction, cc *ssa.CallCommon, 
 
 func (X *Exec) execCallWith2(fr *Frame, ins ssa.Instruction, cc *ssa.CallCommon, st *State, how string, fnv *Val, args []*Val) *Val {
 	pos := ins.Pos()
+	X.curIns = ins
 	skip, forceHavoc := X.applyCallsites(fr, st, cc, how, pos)
+	X.curIns = nil
 	if skip {
 		return X.freshResults(st, cc, "skipped")
 	}
@@ -1069,4 +1077,23 @@ func mentionsGhost(e *SExpr, fs *FuncSpec) bool {
 		}
 	}
 	return false
+}
+
+
+// loopVarsAt: rangeindex / rangelen of the innermost loop that contains the instruction (nil outside loops).
+func (X *Exec) loopVarsAt(fr *Frame, st *State, ins ssa.Instruction) map[string]*Val {
+	if ins == nil || ins.Block() == nil || ins.Parent() != fr.Fn {
+		return nil
+	}
+	cfg := analyzeCFG(fr.Fn)
+	var best *loopInfo
+	for _, li := range cfg.headList {
+		if li.Body[ins.Block().Index] && (best == nil || len(li.Body) < len(best.Body)) {
+			best = li
+		}
+	}
+	if best == nil {
+		return nil
+	}
+	return X.loopVars(fr, best, st)
 }
